@@ -210,5 +210,13 @@ class C11(Check):
     def signature(self, plan, violation):
         return '%s:%s' % (violation['kind'], violation['detail'].get('config', '?').split('/')[0].rstrip('0123456789'))
 
+    def fixed_plans(self, tier):
+        # regressions of the fixed findings: minimised pipelines kept under replays/fixed/
+        import json, glob
+        out = []
+        for path in sorted(glob.glob(os.path.join(core.VERIF, 'replays', 'fixed', 'C11-*.json'))):
+            out.append((os.path.basename(path)[:-5], json.load(open(path))['plan']))
+        return out
+
 
 CHECK = C11()
